@@ -51,6 +51,17 @@ CLAIMED = {
         design_ref='DESIGN.md 5 (C20)',
         note=TRUST + '; the count clause composes two machine-checked contracts by a bijection argument that is not itself machine-checked',
         technique='contract-based deductive verification (CBMC dfcc contracts with ghost permutation)'),
+    'C09': dict(
+        category='proof',
+        text='LocalNetwork statistics under contract (extracted bodies, stubs for the adjustment stages, sqrt/atan2/Normal/Student): '
+             'degrees_of_freedom = rows - cols + defect; m_0 a posteriori is the one sqrt of the recorded quotient vPv/dof (0 for dof <= 0); '
+             'conf_int_coef calls Normal iff the reference deviation is a priori, Student(.., dof) iff a posteriori with dof > 0; conf_pr '
+             'accepts exactly (0,1); stdev = m0 * sqrt(cofactor) read only from a current adjustment; error ellipse: call/sign structure by CBMC, '
+             'the eigen-decomposition identities by z3 over the reals on the extracted statement text. sigma_L and residual cofactors inside '
+             'vyrovnani_, and invariance under sigma-apr (two runs) are not decided.',
+        design_ref='DESIGN.md 5 (C09)',
+        note=TRUST + '; assumed contracts for sqrt (monotone, >= 0), atan2 range, Normal/Student (recorded arguments), q_xx as an uninterpreted function',
+        technique='contract-based deductive verification (CBMC dfcc contracts; z3 real-arithmetic lemmas on the extracted text)'),
 }
 
 NA = {
